@@ -12,6 +12,9 @@ import RuxModel.Model.Gates
     chain <nglobal> <handlers> <hdr>              -> st<status> trace=<…> www=<hex|~> ;; body=<hex>
 
   `<hdr>`, `<body>`, `<query>`: `~` = absent, otherwise a hex byte string (`-` = present and empty).
+  `<body>` says how the body carries the `_method` form field: a bare hex string = urlencoded body;
+  `M<hex>` = a `multipart/form-data` body whose only part is the field; `N<hex>` = a multipart body of a
+  file-upload form (another field before, a file part after the field).
   `<accounts>`: `-` or `u:p,u:p,…` (hex).  `<specs>`: `-` or `t<k>,x<k>,o,…`.
   `<handlers>`: handlers joined by `/`, each `K,act,act,…` with K ∈ H | W0 W1 W2 | F0 F1 F2 | A
   (for `A` the acts are the account pairs), acts `m<n>` mark, `n` Next, `a` Abort, `s<code>` WriteHeader,
@@ -23,6 +26,12 @@ open Rux.Gates
 
 def optHex (s : String) : Option (Option Bytes) :=
   if s = "~" then some none else (Bytes.ofHex s).map some
+
+/-- the `<body>` token -/
+def optBody (s : String) : Option FormBody :=
+  if s = "~" then some .absent
+  else if s.startsWith "M" || s.startsWith "N" then (Bytes.ofHex (s.drop 1).copy).map .multipart
+  else (Bytes.ofHex s).map .urlenc
 
 def showOpt : Option Bytes → String
   | none => "~"
@@ -130,16 +139,16 @@ def gatesStep (_ : Unit) : List String → Unit × String
         | none => ((), "bad-op")
     | none => ((), "bad-op")
   | ["ovr", _mode, m, h, b, q] =>
-    match Bytes.ofHex m, optHex h, optHex b, optHex q with
+    match Bytes.ofHex m, optHex h, optBody b, optHex q with
     | some method, some hdr, some body, some query =>
-      let r := methodOverride method (formValue body query) (hdr.getD [])
+      let r := methodOverride method (formValueOf body query) (hdr.getD [])
       let cls := if r.1 = method then "kept" else "rewritten"
       ((), s!"{cls} method={Bytes.toHex r.1} orig={showOpt r.2}")
     | _, _, _, _ => ((), "bad-op")
   | ["wrap", specs, times, m, h, b, q] =>
-    match parseWSpecs specs, times.toNat?, Bytes.ofHex m, optHex h, optHex b, optHex q with
+    match parseWSpecs specs, times.toNat?, Bytes.ofHex m, optHex h, optBody b, optHex q with
     | some ws, some n, some method, some hdr, some body, some query =>
-      let req : Req := { method := method, form := formValue body query, hdr := hdr.getD [], orig := none }
+      let req : Req := { method := method, form := formValueOf body query, hdr := hdr.getD [], orig := none }
       match wrapHTTPHandlers (ws.map WSpec.toW) routerH with
       | none => ((), "n0 ;; nil")
       | some hh =>
